@@ -51,7 +51,19 @@ CHECKS = {
         'note': 'Trusted: pmc/ref/roles.py; chained/non-canonical normalisation tables and the involution law on collision roles are excluded as unsatisfiable (DESIGN.md 3.1).',
         'design_ref': 'DESIGN.md section 4 C13',
     },
+    'C03': {
+        'technique': 'bounded-exhaustive enumeration of graphs x all triple orders x all tops x models, round trip through the real encode/decode',
+        'text': 'Every connected well-formed graph of GRAPH(V<=3, E<=3) over wide, mid, narrow and AMR role/constant pools (constants 0, 0.0, -1, 1.5, "", None, strings; concepts spelled like variables; inverted roles on edges and attributes) is encoded by the real code from every permutation of its triple list (or every order within two adjacent transpositions for the largest size) and from every variable as top, decoded again, and compared by content (one model deinversion, constants by written form, edge/attribute status). The same is done for graphs that carry the faithful markers of every well-formed tree of a family, permuted.',
+        'note': 'Trusted: pmc/ref/interp.py content normal form and pmc/ref/roles.py; collision roles and NaN are outside the pools; small-scope hypothesis.',
+        'design_ref': 'DESIGN.md section 4 C03',
+    },
+    'C06': {
+        'technique': 'explicit-state search over marker-edit histories (BFS with state hashing) plus complete marker products and complete enumeration of short triple lists, on the real encoder',
+        'text': 'Three exhaustive explorations of the real configure/encode: (i) the complete product of marker assignments (Push(v) for any variable or none, 0-2 POPs, per triple) over orderings and tops of small connected graphs; (ii) breadth-first search over edit histories (drop a marker, add Push(v), add POP, swap two marker lists, transpose adjacent triples) up to 1-3 edits from the faithful marking of every well-formed tree of three families, states de-duplicated on (order, marker lists), every state encoded from every top and decoded back; (iii) every triple list up to length 3/4 over 2 sources, 4 roles, 4 targets with every requested top: result is text or LayoutError, and LayoutError exactly when the reference connectivity says so. A watchdog reports non-termination.',
+        'note': 'Trusted: pmc/ref/interp.py (content, weak connectivity); marker alphabet Push/POP only; small-scope hypothesis on graph size and edit depth.',
+        'design_ref': 'DESIGN.md section 4 C06',
+    },
 }
 
 NOT_APPLICABLE = {k: _PENDING for k in
-                  ['C03', 'C05', 'C06', 'C09', 'C11', 'C12', 'C15', 'C16', 'C17', 'C18', 'C19', 'C20']}
+                  ['C05', 'C09', 'C11', 'C12', 'C15', 'C16', 'C17', 'C18', 'C19', 'C20']}
